@@ -15,7 +15,7 @@ from scales.message import MethodReturnMessage, MethodCallMessage
 PROPERTY = 'C04'
 INDUCTION_PREFIXES = ('inv.',)
 
-SIZES = {'quick': (1, 2, 3, 4, 5), 'thorough': (1, 2, 3, 4, 5, 6, 7)}
+SIZES = {'quick': (1, 2, 3, 4, 5), 'thorough': (1, 2, 3, 4, 5, 6)}
 MAXDOWN = {'quick': 1, 'thorough': 2}
 
 INFO = dict(
@@ -28,7 +28,7 @@ INFO = dict(
               'top of the real balancer on the virtual-time loop with symbolic reply/fault/timeout instants: whichever of '
               'reply, error, timeout, late reply comes first, the release runs exactly once.',
   bounds={'quick': '(a) N<=5 members, <=1 down (<=2 down for N<=4, every queue order); outstanding 0..10^6 symbolic. (b) 2 members, <=2 concurrent calls, each with symbolic deadline, reply time and reply kind',
-          'thorough': '(a) N<=7, <=2 down. (b) 3 members, <=3 concurrent calls'},
+          'thorough': '(a) N<=6, <=2 down. (b) 2 members, 2 concurrent calls each with a duplicate late reply'},
   outside=['more members / more concurrent calls than the bound', 'aperture _total accounting (C06 harness)'],
   stubs=['random.randint -> symbolic index', 'fake member channels (state symbolic, fixed per operation)',
          'virtual-time loop (3.1); time.time = loop clock (3.2); math.ceil/float/int on symbolic reals in timer_queue (3.8)'],
